@@ -855,6 +855,50 @@ func (w *worker) refreshCase(k, j int, kind, followup string) error {
 	return nil
 }
 
+
+// faultWrite: a sector write abandoned after the request (no data, or fewer than DataLength bytes)
+// or refused: the account's balance, the sector store and the contract stay exactly as they were.
+func (w *worker) faultWrite(variant int) error {
+	if err := w.resize(2); err != nil {
+		return err
+	}
+	names := []string{"short-data", "token-garbage", "prices-expired", "length-unaligned", "complete"}
+	c := w.begin("fault-write-"+names[variant], nil)
+	before := w.snap()
+	a := rhpx.WriteArgs{Prices: w.s.GoodPrices(), Token: w.s.GoodToken(w.acct), Len: 128, Sector: 33}
+	had, _ := w.rig.SS.HasSector(rhpx.RootHash(33))
+	switch variant {
+	case 0:
+		a.Short = true
+	case 1:
+		a.Token.Sig = rhpx.PS{Kind: "x"}
+	case 2:
+		a.Prices.Delta = -3600
+	case 3:
+		a.Len = 100
+	}
+	res := w.s.Write(a)
+	c.Op(res.Op, res.Impl)
+	if variant < 4 {
+		if res.Cls == "ok" {
+			c.Oracle("fault-accepted:write:"+names[variant], "write with %s was accepted", names[variant])
+		}
+		w.check(c, "write", names[variant], before, res, true, w.cur)
+		if has, _ := w.rig.SS.HasSector(rhpx.RootHash(33)); has && !had {
+			c.Oracle("not-atomic:write:"+names[variant]+":stored", "an abandoned write left a sector in the store")
+		}
+	} else {
+		w.check(c, "write", "complete", before, res, false, w.cur)
+		if res.Cls != "ok" {
+			c.Oracle("write-refused", "a funded, complete write was refused: %s", res.Impl)
+		}
+	}
+	w.observe(c)
+	c.Nontrivial = true
+	w.add(c, "rpc:write", "fault:"+names[variant])
+	return nil
+}
+
 type job func(w *worker) error
 
 // sequences over the alphabet 0..n (n itself is out of range) of length <= maxLen
@@ -952,6 +996,11 @@ func Run(r *vh.Run) {
 				jobs = append(jobs, func(w *worker) error { return w.window(n, uint64(off), uint64(l), true) })
 			}
 		}
+	}
+	// (2b) a sector write abandoned or refused at each point: balances included in the atomicity oracle
+	for v := 0; v < 5; v++ {
+		v := v
+		jobs = append(jobs, func(w *worker) error { return w.faultWrite(v) })
 	}
 	// (3b) free-then-refresh/renew: capacity above the file size must not leak into the new contract's roots
 	for _, kind := range []string{"refresh-full", "refresh-partial", "renew"} {
